@@ -26,17 +26,34 @@ import Circomspect.Lemmas.TaintLemmas
 namespace Circomspect.C09
 open Circomspect Taint
 
-/-- `multi_step_taint` (when the loop exits through its subset test) is exactly reachability in the
+/-- `multi_step_taint` (when the work list empties within the budget) is exactly reachability in the
     single-step relation -/
 theorem C09_closure (es : List (V × V)) (fuel : Nat) (x : V) (r : List V)
     (h : multiStepTaint es fuel x = some r) : ∀ y, y ∈ r ↔ Reach es x y :=
   fun y => ⟨multiStepTaint_sound es fuel x r h y, multiStepTaint_complete es fuel x r h y⟩
 
-/-- the `while !update.is_subset(&result)` loop exits by itself: a budget of (number of edge targets + 2)
-    iterations is never exhausted -/
+/-- the work list of `multi_step_taint` empties by itself: a budget of (number of edges + 2) iterations is never
+    exhausted — the work is linear in the number of taint steps (repair 7abcad3; before it the loop re-expanded
+    the whole frontier in every round) -/
 theorem C09_closure_terminates (es : List (V × V)) (x : V) :
-    ∃ r, multiStepTaint es ((x :: es.map (·.2)).length + 1) x = some r :=
+    ∃ r, multiStepTaint es (closureFuel es 1) x = some r :=
   multiStepTaint_terminates es x
+
+/-- the same for `multi_step_constraint`, which starts from all one-step partners -/
+theorem C09_constraint_closure_terminates (es : List (V × V)) (x : V) :
+    ∃ r, multiStepCons es (closureFuel es es.length) x = some r :=
+  multiStepCons_terminates es x
+
+/-- the repair changed the cost, not the result: the loop as it was (`closeLoop`, `while !update.is_subset(&result)`)
+    and the work list return the same set of variables whenever both return -/
+theorem C09_closure_repair_same (es : List (V × V)) (k k' : Nat) (x : V) (r r' : List V)
+    (h : closeLoop es k [x] [] = some r) (h' : workLoop es k' [x] [] = some r') : ∀ y, y ∈ r ↔ y ∈ r' :=
+  closure_repair_same es k k' x r r' h h'
+
+/-- non-vacuity: on a cycle with a tail both loops return, and return the same four variables -/
+example : closeLoop [(1, 2), (2, 3), (3, 1), (3, 4)] 9 [1] [] = some [1, 2, 3, 1, 4]
+    ∧ workLoop [(1, 2), (2, 3), (3, 1), (3, 4)] 9 [1] [] = some [4, 3, 2, 1] := by
+  constructor <;> rfl
 
 /-- the sink set contains every input/output signal, every variable read by a condition, a
     dimension, an assertion or a return value, and every variable of a constraint that mentions an
